@@ -29,10 +29,18 @@ func (w *MultiplexWriter) WriteMsg(tag uint8, p []byte) (n int, err error) {
 	header := uint32(mplexBase+tag)<<24 | uint32(len(p))
 	// log.Printf("len %d (hex %x)", len(p), uint32(len(p)))
 	// log.Printf("header=%v (%x)", header, header)
-	if err := binary.Write(w.Writer, binary.LittleEndian, header); err != nil {
+
+	// Write header and payload with a single Write call: more than one
+	// goroutine can write messages (e.g. an error message while the
+	// generator is still sending checksums), and a message written in two
+	// parts could be torn apart by another message.
+	buf := make([]byte, 4+len(p))
+	binary.LittleEndian.PutUint32(buf, header)
+	copy(buf[4:], p)
+	if _, err := w.Writer.Write(buf); err != nil {
 		return 0, err
 	}
-	return w.Writer.Write(p)
+	return len(p), nil
 }
 
 type MultiplexReader struct {
